@@ -985,7 +985,7 @@ class Forest:
 _DEFAULTS = dict(min_units=1, max_units=4, max_depth=4, max_dies=40, versions=(2, 3, 4, 5),
                  partial_units=True, refs=True, share_abbrev=0.5, sibling=0.35, strp=0.5,
                  lone_null=0.15, odd_codes=0.3, cross_unit_chains=False, max_chain=4,
-                 llvm_safe=True, v4_block_locations=False, extras=0.3, refused=0.0, cu_imports=0.0, dup_attrs=0.0, implicit_consts=0.0, const_blocks=0.0,
+                 llvm_safe=True, v4_block_locations=False, extras=0.3, refused=0.0, cu_imports=0.0, dup_attrs=0.0, implicit_consts=0.0, const_blocks=0.0, empty_ranges=0.0,
                  rich_ops=0.0, loclists=0.0,
                  const_forms=("data1", "data2", "data4", "data8", "sdata", "udata"))
 
@@ -1333,6 +1333,10 @@ class ForestGen:
         for i in range(n - 1):
             if self._chance(0.4):           # adjacent ranges
                 ranges[i][1] = ranges[i + 1][0]
+        for rg in ranges:
+            # an entry whose begin equals its end covers nothing but is stored (and (0, 0) would end the list)
+            if rg[0] != 0 and self._chance(self.opts["empty_ranges"]):
+                rg[1] = rg[0]
         exprs = [first] + [more() for _ in range(n - 1)]
         if self._chance(0.5):
             r.shuffle(ranges)
